@@ -38,6 +38,8 @@ pub enum Clause {
     PanicAcc,
     /// an event (or the observers after it) did not return within the watchdog limit
     Hang,
+    /// the process died inside an event (abort, stack overflow, fatal signal): not catchable in-process
+    Abort,
     // ---- C12
     Neg,
     Clear,
@@ -49,7 +51,7 @@ pub enum Clause {
 }
 
 impl Clause {
-    pub const ALL: [Clause; 16] = [
+    pub const ALL: [Clause; 17] = [
         Clause::BitImage,
         Clause::IsZero,
         Clause::IsNar,
@@ -59,6 +61,7 @@ impl Clause {
         Clause::MatDot,
         Clause::PanicAcc,
         Clause::Hang,
+        Clause::Abort,
         Clause::Neg,
         Clause::Clear,
         Clause::BitsRoundtrip,
@@ -78,6 +81,7 @@ impl Clause {
             Clause::MatDot => "matrix_dot",
             Clause::PanicAcc => "panic_accumulate",
             Clause::Hang => "hang",
+            Clause::Abort => "abort",
             Clause::Neg => "neg",
             Clause::Clear => "clear",
             Clause::BitsRoundtrip => "bits_roundtrip",
@@ -100,6 +104,7 @@ impl Clause {
             | Clause::Order
             | Clause::MatDot
             | Clause::Hang
+            | Clause::Abort
             | Clause::PanicAcc => Mode::C04,
             _ => Mode::C12,
         }
